@@ -27,14 +27,15 @@ pub fn result_shape(r: &cooklang::RecipeResult) -> Option<(&'static str, String)
     None
 }
 
-fn is_deprecation_notice(d: &SourceDiag, input: &str) -> bool {
-    // recognised structurally, not by wording: an analysis warning whose labels all sit on `>>` lines
+fn is_deprecation_notice(d: &SourceDiag, input: &str, modes: bool) -> bool {
+    // recognised structurally, not by wording: an analysis warning whose labels all sit on `>>` lines (with MODES on,
+    // not on the bracketed configuration lines: those are no metadata there)
     d.severity == Severity::Warning
         && d.stage == Stage::Analysis
         && !d.labels.is_empty()
         && d.labels.iter().all(|(s, _)| {
             let ls = input[..s.start().min(input.len())].rfind('\n').map(|p| p + 1).unwrap_or(0);
-            input[ls..].starts_with(">>") && !input[ls..].trim_start_matches(">>").trim_start().starts_with('[')
+            input[ls..].starts_with(">>") && !(modes && input[ls..].trim_start_matches(">>").trim_start().starts_with('['))
         })
 }
 
@@ -76,7 +77,7 @@ pub fn check_clean(ctx: &mut Ctx, ps: &mut Parsers, text: &str, ext: u32, conv: 
     }
     let mut notices = 0;
     for d in r.report().iter() {
-        if is_deprecation_notice(d, text) {
+        if is_deprecation_notice(d, text, E::from_bits_retain(ext).contains(E::MODES)) {
             notices += 1;
             continue;
         }
@@ -451,6 +452,19 @@ pub fn run(ctx: &mut Ctx) {
                 check_clean(ctx, &mut ps, &sp.text, E::COMPAT.bits(), "bundled", "core/compat");
                 let e = subsets[ctx.rng.below(subsets.len())].bits();
                 check_clean(ctx, &mut ps, &sp.text, e, "bundled", "core/random_subset");
+            }
+        }
+    }
+    // (a'') well-formed recipes written by hand with spellings the generator does not produce: braces that hold only a
+    // comment (no quantity), escaped separators inside names, aliases, notes, units and values
+    if ctx.shard == 0 {
+        for t in [
+            "Add @sea salt{[- to taste -]} and stir.\n", "Use the #big pan{ [- the red one -] } and @oil{[- c -]}.\n", "Wait ~{5%min}, then @water{1[- about -]%l}.\n",
+            "Add the @type 00 flour|plain\\|all-purpose{500%g}.\n", "Use #pan\\|pot|the pan{} and @salt \\| pepper{}.\n", "Add @a\\{b\\}{1%k\\|g}(a \\(note\\)).\n",
+            "Mix @flour{2\\%%g} and @x{1%\\%}.\n", "Add @butter{1/2%cup}(soft\\) and @milk{}.\n",
+        ] {
+            for ext in [E::all().bits(), E::empty().bits(), E::COMPAT.bits(), E::COMPONENT_ALIAS.bits()] {
+                check_clean(ctx, &mut ps, t, ext, "bundled", "handwritten");
             }
         }
     }
